@@ -167,6 +167,14 @@ Definition cc_obs (o : option (decision * bundle)) : list N :=
       ++ flat_map (fun i => match i with IUser s => [s] | _ => [] end) (b_items b)
   end.
 
+(* a cache file by line: Some i = the line is byte-identical to the truth line of frame i (seq = position in a valid
+   stream), None = it does not parse *)
+Definition cc_lines (fr : log) (ixs : list (option N)) : list cline :=
+  map (fun o => match o with
+                | Some i => match nth_error fr (N.to_nat i) with Some f => CGood f | None => CBad end
+                | None => CBad
+                end) ixs.
+
 Record cc_case := {
   cc_l : log;                 (* the thread's frames in events.jsonl *)
   cc_mrf : cfile;             (* <id>.mr.v1.jsonl as found *)
